@@ -1,9 +1,11 @@
 /-
 C03 — whatever the builder serialises, the parser reads back identically.
-Property theorems only (statements are fixed; helper lemmas live in `Lemmas/Builder.lean`).
+Property theorems only (statements are fixed; helper lemmas live in `Lemmas/Builder.lean` and
+`Lemmas/Roundtrip.lean`).
 -/
 import StunVerif.Spec.Builder
 import StunVerif.Lemmas.Builder
+import StunVerif.Lemmas.Roundtrip
 namespace StunVerif.C03
 open StunVerif
 
@@ -13,7 +15,12 @@ theorem build_shape (H : Hashes) (hH : Spec.HashesOk H) (b : Builder) (hr : Spec
     (hs : b.byteLen ≤ 65535 + 20) :
     b.build.length % 4 = 0 ∧ b.build.length = b.byteLen ∧
     beNat ((b.build.drop 2).take 2) = b.build.length - 20 := by
-  sorry
+  have hok := reach_ok H hH b hr
+  have hlen := builder_build_length b hok
+  have hbl := byteLen_eq b
+  have hmod := sumPadded_mod b.attrs
+  refine ⟨by omega, hlen, ?_⟩
+  rw [build_lenField b hok, hlen, Nat.mod_eq_of_lt (by omega)]
 
 /-- parsing the serialised bytes succeeds and yields the same type field (class and method), the
     same transaction id and the same attributes in the same order — types and value bytes,
@@ -22,14 +29,26 @@ theorem roundtrip (H : Hashes) (hH : Spec.HashesOk H) (b : Builder) (hr : Spec.R
     (hs : b.byteLen ≤ 65535 + 20) :
     ∃ m, msgFromBytes b.build = .ok m ∧ m.typeField = b.ty ∧ m.tid = b.tid ∧
       m.allAttrs = b.attrs.map BAttr.asRaw ∧ m.iter = b.attrs.map BAttr.asRaw := by
-  sorry
+  exact ⟨⟨b.build⟩, build_parse H hH b hr hs⟩
 
 /-- typed values come back equal: every typed attribute handed to the builder is found again by
     its type and decodes to the value that was put in -/
 theorem typed_roundtrip (H : Hashes) (hH : Spec.HashesOk H) (b : Builder) (hr : Spec.Reach H b)
     (hs : b.byteLen ≤ 65535 + 20) (v : AttrVal) (hv : BAttr.typed v ∈ b.attrs) :
     ∃ m, msgFromBytes b.build = .ok m ∧ m.attribute v.kind = .ok v := by
-  sorry
+  obtain ⟨hp, _, _, _, hiter⟩ := build_parse H hH b hr hs
+  refine ⟨⟨b.build⟩, hp, ?_⟩
+  have hl : v.inLimit = true := reach_ok H hH b hr _ hv
+  have hmem : v.toRaw ∈ b.attrs.map BAttr.asRaw := List.mem_map_of_mem (f := BAttr.asRaw) hv
+  have hnd : ((b.attrs.map BAttr.asRaw).map (·.ty)).Nodup := by
+    rw [reach_raws_ty H b hr]; exact reach_nodup H b hr
+  have hfind := find_of_nodup _ hnd _ hmem
+  unfold Msg.attribute Msg.rawAttribute
+  rw [hiter]
+  have hc : v.toRaw.ty = v.kind.code := rfl
+  rw [hc] at hfind
+  rw [hfind]
+  exact fromRaw_roundtrip v hl
 
 /-- class and method are those given to the builder, for all 4 classes × 4096 methods -/
 theorem class_method_roundtrip (H : Hashes) (hH : Spec.HashesOk H) (c meth tid : Nat)
@@ -38,7 +57,11 @@ theorem class_method_roundtrip (H : Hashes) (hH : Spec.HashesOk H) (c meth tid :
     (hs : b.byteLen ≤ 65535 + 20) :
     ∃ m, msgFromBytes b.build = .ok m ∧ Spec.classOfType m.typeField = c ∧
       Spec.methodOfType m.typeField = meth := by
-  sorry
+  have _ := ht
+  obtain ⟨hp, hty, _⟩ := build_parse H hH b hr hs
+  refine ⟨⟨b.build⟩, hp, ?_, ?_⟩
+  · rw [hty, hb]; exact class_interleave c meth hc
+  · rw [hty, hb]; exact method_interleave c meth hm
 
 /-! Non-vacuity: a reachable builder with a typed and a raw attribute. -/
 example (H : Hashes) : Spec.Reach H
